@@ -72,10 +72,15 @@ func (c *gcase) printOpts(pkg string, v *rand.Rand) gram.PrintOpts {
 	if c.inline {
 		hasCap := c.g.Count(gram.KCapture) > 0
 		o.ActionCode = func(id int) string {
-			if hasCap {
-				return fmt.Sprintf("p.actI(%d, text)", id)
+			// a '%' in the action text: the generator must copy user code verbatim (it is not a format string)
+			pct := ""
+			if id%3 == 1 {
+				pct = fmt.Sprintf("; p.End += %d %% 1", id+2)
 			}
-			return fmt.Sprintf("p.actN(%d)", id)
+			if hasCap {
+				return fmt.Sprintf("p.actI(%d, text)%s", id, pct)
+			}
+			return fmt.Sprintf("p.actN(%d)%s", id, pct)
 		}
 	}
 	return o
